@@ -149,7 +149,7 @@ func dtFmtXML(k int) string {
 	if k%3 == 0 {
 		s += "<w:i/><w:iCs/>"
 	}
-	s += fmt.Sprintf(`<w:color w:val="%02X00%02X"/><w:sz w:val="%d"/>`, 16*k, 255-16*k, 20+2*k)
+	s += fmt.Sprintf(`<w:color w:val="%02X00%02X"/><w:sz w:val="%d"/>`, (7*k)%256, 255-(7*k)%256, 20+2*k)
 	return s + "</w:rPr>"
 }
 
@@ -157,6 +157,7 @@ type dtBuilder struct {
 	doc  *document.Document
 	pj   *dtProj
 	img9 *document.DrawingElement
+	nbm  int
 }
 
 func (b *dtBuilder) drawing() *document.DrawingElement {
@@ -402,6 +403,11 @@ func dtBuild(d dtDesc, pj *dtProj) (doc *document.Document, pkg []byte, needOpen
 			doc.Body.Elements = append(doc.Body.Elements, &p)
 		case "tbl":
 			doc.Body.Elements = append(doc.Body.Elements, b.table(bl))
+		case "bm":
+			b.nbm++
+			doc.Body.Elements = append(doc.Body.Elements,
+				&document.BookmarkStart{ID: fmt.Sprint(b.nbm), Name: fmt.Sprintf("bm%d", b.nbm)},
+				&document.BookmarkEnd{ID: fmt.Sprint(b.nbm)})
 		}
 	}
 	switch d.Sect {
